@@ -113,7 +113,8 @@ fn run_case(case: &Value, variation: u64, vbp: &Path, scratch: &Path) -> Vec<Pro
             emit_table(&["metadata".to_string()], &desc_md, style, &mut s);
             fs::write(bp.join("buildpack.toml"), s).unwrap();
         }
-        "malformed" => fs::write(bp.join("buildpack.toml"), "api = = \"0.10\"\n").unwrap(),
+        // (not TOML at all, or an API version that is not <major>.<minor>: white space is no part of one)
+        "malformed" => fs::write(bp.join("buildpack.toml"), ["api = = \"0.10\"\n", "api = \" 0.10\"\n\n[buildpack]\nid = \"a/b\"\nversion = \"1.0.0\"\n", "api = \"0.10\\n\"\n\n[buildpack]\nid = \"a/b\"\nversion = \"1.0.0\"\n"][r.usize(..3)]).unwrap(),
         "restbad" => fs::write(bp.join("buildpack.toml"), "api = \"0.10\"\n\n[buildpack]\nid = 5\n").unwrap(),
         _ => {}
     }
@@ -200,7 +201,12 @@ fn run_case(case: &Value, variation: u64, vbp: &Path, scratch: &Path) -> Vec<Pro
     // "blocked:<file>": a directory sits where that output file has to be written
     let blocked = c("pre").strip_prefix("blocked:").map(str::to_string);
     if let Some(f) = &blocked {
-        fs::create_dir_all(layers.join(f).join("not a file")).unwrap();
+        // ... or (every other time) the file can be opened but not written: a link to /dev/full
+        if r.bool() && Path::new("/dev/full").exists() {
+            std::os::unix::fs::symlink("/dev/full", layers.join(f)).unwrap();
+        } else {
+            fs::create_dir_all(layers.join(f).join("not a file")).unwrap();
+        }
     }
     if pre {
         for n in out_names {
